@@ -162,7 +162,8 @@ func c16Workload(g *rand.Rand, port int, dur time.Duration) int {
 			extra := [][]string{{"SADD", "ks", "a", "b", "c", "d", "e"}, {"HSET", "kh", "f1", "1", "f2", "2", "f3", "3"}, {"SRANDMEMBER", "ks", "3"}, {"SRANDMEMBER", "ks", "-20"}, {"SRANDMEMBER", "ks"},
 				{"SPOP", "ks"}, {"SPOP", "ks", "2"}, {"HRANDFIELD", "kh", "2"}, {"HRANDFIELD", "kh", "-20", "WITHVALUES"}, {"HRANDFIELD", "kh"}, {"RANDOMKEY"}, {"SCAN", "0", "COUNT", "3"},
 				{"SSCAN", "ks", "0"}, {"HSCAN", "kh", "0"}, {"SORT", "ks", "ALPHA"}, {"LCS", "ka", "kb"}, {"INCRBYFLOAT", "kf", "0.5"}, {"HINCRBYFLOAT", "kh", "n", "0.5"}, {"OBJECT", "ENCODING", "ka"},
-				{"EXPIRE", "ka", "100"}, {"SET", "kt", "v", "PX", "3"}, {"GET", "kt"}, {"KEYS", "k[a-z]*"}, {"BITFIELD", "kb", "INCRBY", "u8", "0", "1"}, {"DUMP", "ka"}}
+				{"EXPIRE", "ka", "100"}, {"SET", "kt", "v", "PX", "3"}, {"GET", "kt"}, {"KEYS", "k[a-z]*"}, {"BITFIELD", "kb", "INCRBY", "u8", "0", "1"}, {"DUMP", "ka"},
+				{"BLPOP", "nolist", "0.002"}, {"BRPOP", "nolist", "nolist2", "0.003"}, {"BLMOVE", "nolist", "kl", "LEFT", "RIGHT", "0.002"}, {"BLMPOP", "0.002", "1", "nolist", "LEFT"}, {"BRPOPLPUSH", "nolist", "kl", "0.002"}}
 			var a []string
 			if r.Intn(2) == 0 {
 				a = data(c, r)[0]
